@@ -36,12 +36,15 @@ H(seed, p) == LET h0 == ((seed % 65521) * 40503 + 12345) % 65521
               IN  (h3 * 75 + 74) % 65537
 S == sd + Seed * 7919
 Pick(p, n) == (H(S, p) % n) + 1
-\* references: mostly valid parents, sometimes none, rarely a dangling one; cycles arise by chance
-FromOf(t) == LET c == Pick(t * 10 + 1, 10) IN IF c <= 3 THEN 0 ELSE IF c = 10 THEN N + 1 ELSE Pick(t * 10 + 2, N)
+\* references: mostly to an earlier-numbered tag or none (acyclic by construction), sometimes arbitrary (cycles, self reference), rarely dangling
+FromOf(t) == LET c == Pick(t * 10 + 1, 40) IN
+             IF c = 40 THEN N + 1 ELSE IF c >= 35 THEN Pick(t * 10 + 2, N) ELSE Pick(t * 10 + 2, t) - 1
 conf == [t \in 1..N |-> [from |-> FromOf(t), nent |-> Pick(t * 10 + 3, 2)]]
-\* filters: mostly valid ones
-FiltOf(p) == LET c == Pick(p, 12) IN IF c <= 4 THEN 1 ELSE IF c <= 10 THEN c - 3 ELSE c - 4
-ents == [t \in 1..N |-> [e \in 1..2 |-> [file |-> Pick(t * 10 + 3 + e, 3), filt |-> FiltOf(t * 10 + 5 + e)]]]
+\* filters: mostly ones that are valid for the chosen file
+ValidFilters == << <<1, 2, 3, 4, 5, 6>>, <<1, 2, 5>>, <<1>> >>
+FiltOf(file, p) == IF Pick(p + 1000, 12) = 12 THEN Pick(p, Len(Filters)) ELSE ValidFilters[file][Pick(p, Len(ValidFilters[file]))]
+FileOf(t, e) == Pick(t * 10 + 3 + e, 3)
+ents == [t \in 1..N |-> [e \in 1..2 |-> [file |-> FileOf(t, e), filt |-> FiltOf(FileOf(t, e), t * 10 + 5 + e)]]]
 extra == [t \in 1..N |-> Pick(t * 10 + 8, 3) = 1]
 \* declaration order of the tags in the file: a permutation decoded from a number (Lehmer code)
 RECURSIVE PermFrom(_, _)
